@@ -220,6 +220,13 @@ func (vc *VC) trIdent(e *EIdent, env *specEnv, c *Clause) sval {
 				if _, isTuple := r.v.Type().(*types.Tuple); isTuple {
 					break
 				}
+				if r.cell {
+					ct := deref(r.v.Type())
+					if _, isStruct := structOf(ct); isStruct {
+						return sval{term: vc.val(r.v), typ: r.v.Type()}
+					}
+					return sval{term: fmt.Sprintf("(select %s %s)", env.st.get(vc.cellKey(ct)), vc.val(r.v)), typ: ct}
+				}
 				return sval{term: vc.val(r.v), typ: r.v.Type()}
 			}
 		}
